@@ -173,6 +173,12 @@ def check(run, ctx):
         run.ok(V6, "get_relative_path", "relative inputs are made absolute before relative_to(project_root)")
     else:
         run.finding(V6, "PathResolver.get_relative_path", "relative-path-as-is", "a relative path is returned unchanged (relative to the working directory, not the project root): the same file gets a different verdict when the command is run from a sub-directory", gr.loc)
+    branches = [n for n in ast.walk(gr.node) if isinstance(n, ast.Return) and n.value is not None and any(is_call_named(x, "relative_to") for x in ast.walk(n.value))]
+    sym_follow = [any(is_call_named(x, "resolve", "realpath") for x in ast.walk(b.value)) for b in branches]
+    if branches and len(set(sym_follow)) > 1:
+        run.finding(V6, "PathResolver.get_relative_path", "symlink-asymmetry", "one spelling of the path is canonicalised with resolve() (follows symlinks) and the other is not: a symlinked file is judged by the link's location when named absolutely and by the target's location when named relatively", gr.loc)
+    else:
+        run.ok(V6, "get_relative_path branches", f"{len(branches)} relativising branches canonicalise alike")
     return __doc__
 
 
